@@ -58,9 +58,10 @@ CLAIMED = {
              "(d) the real PositionExt::validate returns Ok only for non-zero sizes, size >= the minimum when asked, and a position that "
              "the rule (regular thresholds) calls healthy; it answers Liquidatable only for an unhealthy one.",
         note=_ENV + "Quick tier state space for (b)-(d): position size 100 usd inside an own open-interest slot of 120, symbolic size in tokens, "
-             "collateral, own tokens slot, own liquidity side, thresholds, index price with spread and flat token prices, one harness per "
-             "side/collateral-token combination; all pool slots, prices and the usd size symbolic, and symbolic fees / impact factors (with the "
-             "real check_liquidatable as reference), only in the thorough tier. Not decided: that a successful increase / non-removing "
+             "collateral, own tokens slot, own liquidity side, thresholds, index price with spread and flat token prices, side and collateral "
+             "token fixed per harness ((b),(c): long/short-collateral and short/long-collateral; (d): long/long and short/short; the other "
+             "combinations of (b) in the thorough tier); all pool slots, prices and the usd size symbolic, and symbolic fees / impact factors "
+             "(with the real check_liquidatable as reference), only in the thorough tier. Not decided: that a successful increase / non-removing "
              "decrease ends with validate (whole actions do not finish); the clause 'a liquidation closes the whole position' and the ADL "
              "clause, which live in programs/store/src/ops/order.rs (size_delta >= size requirement, pnl-factor re-check) behind account "
              "loaders and CPIs.",
